@@ -646,8 +646,9 @@ def real_run(ctx, sets, bufsize, kill_at=None, root=None, snapshot=True):
 
 def check_images(ctx, drv, ops_prefix, sets_json, bufsize, scratch, cap, label):
     """(c): crash images of the model after this prefix, materialised and read by the real store"""
-    if len(ctx.oracle_failures) >= 12:
-        # failing crash points are already in hand; do not enumerate the (exploding) image space further
+    if len(ctx.oracle_failures) - getattr(ctx, "_c17_base", 0) >= 6 or len(ctx.oracle_failures) >= 50:
+        # failing crash points of this sequence are already in hand; do not enumerate the (exploding)
+        # image space of the rest of the sequence
         ctx.bump("prefixes-skipped-after-failures")
         return 0
     if drv is not None:
@@ -733,6 +734,7 @@ def run_sequence(ctx, drv, sets, bufsize, sk, flag, cap, label="seq"):
     root = os.path.join(top, "store")
     os.makedirs(root)
     sets_json = [[k, v] for k, v in sets]
+    ctx._c17_base = len(ctx.oracle_failures)
     try:
         rec, err = real_run(ctx, sets, bufsize, root=root)
         case0 = dict(kind="set-sequence", sets=sets_json, bufsize=bufsize)
